@@ -23,8 +23,11 @@ def main(argv):
     if argv[0] == "--digests":
         from . import st_determinism
         return st_determinism.child(argv[1:])
+    if argv[0] == "--refactors":
+        from . import st_refactors
+        return st_refactors.main(argv[1:])
     if argv[0] == "--mutants":
         from . import st_mutants
         return st_mutants.main(argv[1:])
-    print("usage: selftest [--setup|--determinism|--mutants]")
+    print("usage: selftest [--setup|--determinism|--mutants|--refactors]")
     return 2
